@@ -343,6 +343,9 @@ func (x *Exec) accessCheck(st *State, key string, ref Term, write bool, pos toke
 	}
 	if lock, ok := cs.Owned[k]; ok {
 		x.assertSafety(st, "own", "access to "+k+" requires "+lock, x.heldTerm(st, lock), pos)
+		if write {
+			x.assertSafety(st, "own", "a write to "+k+" requires "+lock+" to be held exclusively (not through RLock)", tNot(x.getHeap(st, x.readLockedKey(lock)).(Term)), pos)
+		}
 	}
 	if tok, ok := cs.Confined[k]; ok {
 		x.assertSafety(st, "own", "access to "+k+" is confined to the holder of token("+tok+")", x.getHeap(st, x.tokKey(tok)).(Term), pos)
@@ -350,6 +353,13 @@ func (x *Exec) accessCheck(st *State, key string, ref Term, write bool, pos toke
 	if write && cs.Immutable[k] {
 		x.assertSafety(st, "immutable", k+" is written only before publication", tFalse, pos)
 	}
+}
+
+// readLockedKey: the lock class is currently held through RLock (false for Lock and when not held at all)
+func (x *Exec) readLockedKey(lock string) string {
+	key := "rlocked:" + lock
+	x.registerHeap(key, func() Value { return tFalse })
+	return key
 }
 
 func (x *Exec) heldKey(lock string) string {
